@@ -60,7 +60,7 @@ def _fill_guards(fn, node):
     for lp in hirq.enclosing_loops(fn, node):
         if lp.get("k") != "for":
             continue
-        b = local_of(lp["iter"])
+        b = hirq.alias_root(fn, local_of(lp["iter"]))   # `let v = helper(..)` with the helper absorbed: the Vec filled inside
         if b is None:
             continue
         adds, outs, other = bflow.fills(fn, b)
@@ -154,7 +154,7 @@ def run(ctx):
             if len(fors) == 2:
                 cmp_in = _sort_comparator(ml, fors[0])
                 cmp_out = _sort_comparator(ml, fors[1])
-                ctx.ob("R14.1", site_key(ml, "states in entry order"), cmp_out == ("state_entry_order", (0, 1)), line_of(fors[1]), "comparator %s" % (cmp_out,))
+                ctx.ob("R14.1", site_key(ml, "states in entry order"), cmp_out is not None and is_entry_order(cmp_out[0], cmp_out[1]), line_of(fors[1]), "comparator %s" % (cmp_out,))
                 ctx.ob("R14.1", site_key(ml, "invokes in document order"), cmp_in == ("invoke_document_order", (0, 1)), line_of(fors[0]), "comparator %s" % (cmp_in,))
             # the macrostep loop has ended before the first invoke
             for w in inner:
